@@ -133,16 +133,20 @@ def mul(a, b):
     if bool(bad): raise Unsupported('inf * non-positive value')
     return mkext(ir.mul(fa, fb), ir.lor(ia, ib))
 
-def _nonzero_here(b):
-    """decide (forking if necessary) whether symbolic divisor b is non-zero on this path"""
+def _nonzero_here(b, guard=True):
+    """decide (forking if necessary) whether symbolic divisor b is non-zero on this path; `guard` is the case of an
+    enclosing ite in which the quotient is used (b == 0 outside that case is irrelevant)"""
     e = E()
     if e is None: return True
-    if b.id in e.nonzero: return True
+    if b.id in e.nonzero or ir.is_pos(b) or ir.is_neg(b): return True
+    if guard is not True:
+        import z3
+        if e.check(ir.land(guard, ir.eq(b, 0))) == z3.unsat: return True
     z = e.branch(ir.eq(b, 0), tag='div0')
     if not z: e.nonzero.add(b.id)
     return not z
 
-def div(a, b):
+def div(a, b, guard=True):
     a, b = n_(a), n_(b)
     if isnan(a) or isnan(b): return float('nan')
     if isinstance(b, Ext):
@@ -157,8 +161,15 @@ def div(a, b):
     if isinstance(b, T):
         b = ir.num(b)
         if b.op == 'ite' and (ir._leafy(b) or ir._nleaves(b) <= 40):
-            return ite(b.args[0], div(a, b.args[1]), div(a, b.args[2]))
-        if not _nonzero_here(b):
+            import z3
+            e = E()
+            whole_nonzero = ir.is_pos(b) or (e is not None and (b.id in e.nonzero or e.check(ir.land(guard, ir.eq(b, 0))) == z3.unsat))
+            if whole_nonzero and not isinstance(a, (float, Ext)):
+                if e is not None: e.nonzero.add(b.id)
+                return ir.div(a, b)              # distributes syntactically; zero leaves belong to cases that are not taken
+            c = b.args[0]
+            return ite(c, div(a, b.args[1], ir.land(guard, c)), div(a, b.args[2], ir.land(guard, ir.lnot(c))))
+        if not _nonzero_here(b, guard):
             return _div_zero(a)
         if isinstance(a, float): 
             return a if bool(ir.gt(b, 0)) else -a
